@@ -608,10 +608,15 @@ func runHistory(c *fw.Case, plan []planEntry, keyType string, code uint64, withI
 	runHistoryProto(c, plan, keyType, code, histProto(withIETF), withIETF, mode)
 }
 
+// histStackFactory builds the stack a history runs on (C09 swaps in stacks with a hostile time validator).
+var histStackFactory = sut.SharedStack
+
 // runHistoryProto is runHistory with an explicit protocol configuration.
 func runHistoryProto(c *fw.Case, plan []planEntry, keyType string, code uint64, proto protocol.Protocol, withIETF bool, mode string) {
 	r := c.Rng
-	st := sut.SharedStack(proto)
+	// the genesis time of the protocol is bookkeeping only: no outcome may depend on it
+	proto.GenesisTime = fw.Pick(r, []uint64{0, 0, 777, 1000000})
+	st := histStackFactory(proto)
 	h := &histCtx{r: r, proto: proto, code: code, keyType: keyType, hasIETF: withIETF}
 	pubs, unpubs := randOpList(r), randOpList(r)
 	actual := &protocol.ResolutionModel{PublishedOperations: pubs, UnpublishedOperations: unpubs}
